@@ -51,7 +51,8 @@ Lemma core_cbound_cases cfg i sv f l sv' out ltr :
      (prev = 0 \/ (0 < prev /\ term_at (s_log sv) prev = Some prevT)) /\
      s_log sv' = firstn prev (s_log sv) ++ es /\ s_pc0 sv = true /\ s_term sv <= mt /\
      mc <= List.length (s_log sv') /\ s_commit sv' = Nat.max (s_commit sv) mc /\ cbound sv' = Nat.max (cbound sv) mc /\
-     (s_sm sv', s_smdom sv') = apply_log (s_log sv') (s_commit sv + 1) mc (s_sm sv, s_smdom sv)) \/
+     (s_sm sv', s_smdom sv') = apply_log (s_log sv') (s_commit sv + 1) mc (s_sm sv, s_smdom sv) /\
+     s_pc0 sv' = false) \/
   (s_role sv = Leader /\ s_log sv' = s_log sv /\ s_term sv' = s_term sv /\ s_pc3 sv = false /\ s_commit sv' = s_commit sv /\
    s_role sv' = Leader /\
    (cbound sv' = cbound sv \/
@@ -69,10 +70,464 @@ Proof.
             try (destruct (s_role sv); cbn in *; try discriminate; reflexivity);
             try (right; split; [lia|]; destruct (term_at (s_log sv) mprevLogIndex); try discriminate; bprop; congruence);
             try (destruct (apply_log _ _ _ _); reflexivity); fail).
-  all: try (match goal with Hp : s_pc3 sv = true |- _ => rewrite Hp end; left; repeat split; auto; lia).
+  all: try (match goal with Hp : s_pc3 ?x = true |- _ => rewrite Hp end; left; repeat split; auto; lia).
   all: right; right; apply role_eqb_eq in Heqb1; repeat split; auto.
-  all: destruct (term_at (s_log sv) (find_max_agree cfg i (s_match sv) (List.length (s_log sv)))) as [tt|] eqn:Et; try discriminate.
-  all: injection Heqo as <-; destruct (tt =? s_term sv) eqn:Ett; bprop; subst.
+  all: match goal with Ho : match term_at ?l ?k with _ => _ end = Some _ |- _ =>
+         destruct (term_at l k) as [tt|] eqn:Et; try discriminate; injection Ho as <- end.
+  all: match goal with |- context [if ?c then _ else _] => destruct c eqn:Ett end; bprop; subst.
   all: try (left; lia).
   all: right; rewrite Nat.max_r by lia; repeat split; auto.
+Qed.
+
+Lemma core_sm_cases cfg i sv f l sv' out ltr :
+  server_core cfg i sv f l = HR sv' out ltr ->
+  (s_sm sv' = s_sm sv /\ s_smdom sv' = s_smdom sv /\ s_commit sv' = s_commit sv /\
+   (s_log sv' = s_log sv \/ exists e, s_log sv' = s_log sv ++ [e])) \/
+  (exists e, s_commit sv' = s_commit sv + 1 /\ s_log sv' = s_log sv /\ log_at (s_log sv) (s_commit sv + 1) = Some e /\
+             (s_sm sv', s_smdom sv') = apply_entry e (s_sm sv, s_smdom sv)) \/
+  (exists mt prev prevT es mc j d,
+     s_m sv = Some (APQ mt prev prevT es mc j d) /\ s_role sv' = Follower /\ s_term sv' = mt /\
+     (prev = 0 \/ (0 < prev /\ term_at (s_log sv) prev = Some prevT)) /\
+     s_log sv' = firstn prev (s_log sv) ++ es /\ s_pc0 sv = true /\ s_term sv <= mt /\
+     mc <= List.length (s_log sv') /\ s_commit sv' = Nat.max (s_commit sv) mc /\
+     (s_sm sv', s_smdom sv') = apply_log (s_log sv') (s_commit sv + 1) mc (s_sm sv, s_smdom sv)).
+Proof.
+  intros H. destruct l; core_cases H; ut_cases; cbn in *; auto.
+  all: try (left; repeat split; auto; fail).
+  all: try (left; repeat split; auto; right; eexists; reflexivity).
+  all: try (right; left; eexists; repeat split; eauto; destruct (apply_entry _ _); reflexivity).
+  all: bprop; subst; cbn in *.
+  all: try (right; right; eexists _, _, _, _, _, _, _; split; [reflexivity|];
+            repeat match goal with |- _ /\ _ => split end; auto; try lia;
+            try (destruct (s_role sv); cbn in *; try discriminate; reflexivity);
+            try (right; split; [lia|]; destruct (term_at (s_log sv) mprevLogIndex); try discriminate; bprop; congruence);
+            try (destruct (apply_log _ _ _ _); reflexivity); fail).
+Qed.
+
+(* ---------- commit points ---------- *)
+Definition cpt (cfg : config) (g : ghost) (a : acks) (t k : nat) : Prop := chosen cfg a t k /\ own g t k.
+
+Definition covered (cfg : config) (g : ghost) (a : acks) (n : nat) (l : list entry) (tb self : nat) : Prop :=
+  n = 0 \/ exists t k, cpt cfg g a t k /\ n <= k /\ t <= tb /\ firstn n l = firstn n (tl g t) /\ (t = tb -> n <= a self t).
+
+Definition apq_commit_ok (cfg : config) (g : ghost) (a : acks) (m : msg) : Prop :=
+  match m with
+  | APQ t2 _ _ _ mc _ _ =>
+      mc = 0 \/ exists t k, cpt cfg g a t k /\ mc <= k /\ t <= t2 /\ firstn mc (tl g t2) = firstn mc (tl g t)
+  | _ => True
+  end.
+
+Definition apply_all (l : list entry) : list (nat * nat) * list nat :=
+  fold_left (fun acc e => apply_entry e acc) l ([], []).
+
+Record cinv (cfg : config) (s : state) (g : ghost) (a : acks) : Prop := {
+  C1 : forall i, covered cfg g a (cbound (srv s i)) (s_log (srv s i)) (s_term (srv s i)) i;
+  C2n : forall d m, In m (net s d) -> apq_commit_ok cfg g a m;
+  C2m : forall i m, s_m (srv s i) = Some m -> apq_commit_ok cfg g a m;
+  D1 : forall i, (s_sm (srv s i), s_smdom (srv s i)) = apply_all (firstn (s_commit (srv s i)) (s_log (srv s i)))
+}.
+
+Lemma covered_len cfg g a n l tb self : covered cfg g a n l tb self -> n <= List.length l.
+Proof.
+  intros [->|(t & k & [_ Ho] & Hk & _ & E & _)]; [lia|].
+  destruct (own_len _ _ _ Ho) as [_ Hl]. apply (firstn_eq_length n (tl g t)); auto. lia.
+Qed.
+
+Lemma own_term_le g t k e : own g t k -> (forall x, In x (tl g t) -> e_term x <= t) -> sorted_terms (tl g t) ->
+  forall p, p < k -> nth_error (tl g t) p = Some e -> e_term e <= t.
+Proof. intros _ Hb _ p _ Hn. apply Hb. eapply nth_error_In; eauto. Qed.
+
+(* a snapshot of the log of a later leader contains every commit point of an earlier term *)
+Lemma snapshot_has_cpt cfg s g a t k mt L :
+  linv cfg s g -> ainv cfg s g a -> binv cfg s g a ->
+  cpt cfg g a t k -> t < mt -> gl g mt <> 0 -> is_prefix L (tl g mt) ->
+  (forall p e, List.length L <= p -> nth_error (tl g mt) p = Some e -> e_term e = mt) ->
+  k <= List.length L /\ firstn k L = firstn k (tl g t).
+Proof.
+  intros I IA IB [Hc Ho] Hlt Hgl P Htail.
+  destruct (hasp_dec (tl g mt) g t k) as [Hy|Hn].
+  2:{ exfalso. apply (chosen_no_bad _ _ _ _ _ _ IB Hc Ho mt). repeat split; auto. }
+  destruct (own_len _ _ _ Ho) as [Hk1 Hk]. unfold hasp in Hy.
+  assert (Hlen : k <= List.length (tl g mt)) by (apply (firstn_eq_length k (tl g t)); auto).
+  assert (HkL : k <= List.length L).
+  { destruct (Nat.le_gt_cases k (List.length L)) as [|Hgt]; auto. exfalso.
+    set (p := List.length L) in *.
+    destruct (nth_error (tl g mt) p) as [e|] eqn:En; [|apply nth_error_None in En; lia].
+    assert (Et : e_term e = mt) by (apply (Htail p e); auto; lia).
+    assert (E1 : nth_error (tl g t) p = Some e).
+    { rewrite <- (nth_error_firstn_lt k) by lia. rewrite <- Hy. rewrite nth_error_firstn_lt by lia. exact En. }
+    apply nth_error_In in E1. apply (S1b _ _ _ _ IA) in E1. lia. }
+  split; auto. rewrite (is_prefix_firstn _ _ k P HkL). exact Hy.
+Qed.
+
+Lemma entry_eqb_refl e : entry_eqb e e = true.
+Proof.
+  destruct e as [t [i ty k v] c]. unfold entry_eqb, cmd_eqb. cbn. rewrite !Nat.eqb_refl. destruct ty; reflexivity.
+Qed.
+Lemma entries_eqb_refl l : entries_eqb l l = true.
+Proof. induction l as [|x r IH]; cbn; auto. now rewrite entry_eqb_refl, IH. Qed.
+
+Lemma accepted_ge sv sv' mt prev prevT es mc j d :
+  s_m sv = Some (APQ mt prev prevT es mc j d) -> s_pc0 sv = true -> s_pc0 sv' = false -> s_term sv' = mt ->
+  s_role sv' = Follower -> (prev = 0 \/ (0 < prev /\ term_at (s_log sv) prev = Some prevT)) ->
+  s_log sv' = firstn prev (s_log sv) ++ es ->
+  apq_accepted sv sv' mt = prev + List.length es.
+Proof.
+  intros Hm Hp Hp' Ht Hr Hok El. unfold apq_accepted. rewrite Hm, Hp, Hp', Ht, Hr, El, entries_eqb_refl, !Nat.eqb_refl. cbn.
+  destruct Hok as [->|[A B]]; cbn; auto.
+  rewrite B, Nat.eqb_refl. destruct (prev =? 0); cbn; auto.
+  assert (E : (0 <? prev) = true) by now apply Nat.ltb_lt. now rewrite E.
+Qed.
+
+Lemma apply_all_app l1 l2 : apply_all (l1 ++ l2) = fold_left (fun acc e => apply_entry e acc) l2 (apply_all l1).
+Proof. unfold apply_all. apply fold_left_app. Qed.
+
+Lemma firstn_succ_nth (l : list entry) c e : log_at l (c + 1) = Some e -> firstn (c + 1) l = firstn c l ++ [e].
+Proof.
+  replace (c + 1) with (S c) by lia. cbn [log_at]. revert c. induction l as [|x r IH]; intros c Hn; destruct c; cbn in *; try discriminate.
+  - injection Hn as <-. reflexivity.
+  - f_equal. apply IH. exact Hn.
+Qed.
+
+Lemma firstn_add_split {A} c m (l : list A) : firstn (c + m) l = firstn c l ++ firstn m (skipn c l).
+Proof.
+  revert l; induction c as [|c IH]; intros l; cbn; auto. destruct l; cbn; [now destruct m|]. f_equal. apply IH.
+Qed.
+
+Section CinvStep.
+  Variables (cfg : config) (s : state) (g : ghost) (a : acks) (ev : event) (s' : state).
+  Hypothesis IE : einv cfg s (gv g).
+  Hypothesis I : linv cfg s g.
+  Hypothesis IA : ainv cfg s g a.
+  Hypothesis IB : binv cfg s g a.
+  Hypothesis IC : cinv cfg s g a.
+  Hypothesis H : step cfg s ev = Commit s'.
+  Let g' := observe cfg g s'.
+  Let a' := observe_ack cfg a s s'.
+  Hypothesis I' : linv cfg s' g'.
+  Hypothesis IA' : ainv cfg s' g' a'.
+
+  Lemma a_mono v t : a v t <= a' v t.
+  Proof. apply observe_ack_mono. Qed.
+
+  Lemma cpt_keep t k : cpt cfg g a t k -> cpt cfg g' a' t k.
+  Proof.
+    intros [(Q & N & Inc & Hq & Hall) Ho]. split.
+    - exists Q. repeat split; auto. intros v Hv. pose proof (Hall v Hv). pose proof (a_mono v t). lia.
+    - eapply own_keep; eauto. apply (tl_grows _ _ _ _ _ IE I H).
+  Qed.
+
+  Lemma tl_firstn_keep t k n : own g t k -> n <= k -> firstn n (tl g' t) = firstn n (tl g t).
+  Proof.
+    intros Ho Hn. destruct (own_len _ _ _ Ho). apply firstn_prefix_stable; [apply (tl_grows _ _ _ _ _ IE I H)|lia].
+  Qed.
+
+  Lemma covered_keep n l tb self : covered cfg g a n l tb self -> covered cfg g' a' n l tb self.
+  Proof.
+    intros [->|(t & k & Hc & Hk & Ht & E & Hcl)]; [now left|]. right. exists t, k.
+    split; [now apply cpt_keep|]. repeat split; auto.
+    - rewrite E. symmetry. apply (tl_firstn_keep t k n); auto. apply Hc.
+    - intros Et. specialize (Hcl Et). pose proof (a_mono self t). lia.
+  Qed.
+
+  Lemma apq_commit_keep m : apq_commit_ok cfg g a m -> apq_commit_ok cfg g' a' m.
+  Proof.
+    destruct m; try (intros; exact Logic.I). unfold apq_commit_ok.
+    intros [->|(t & k & Hc & Hk & Ht & E)]; [now left|]. right. exists t, k. split; [now apply cpt_keep|]. repeat split; auto.
+    rewrite (tl_firstn_keep t k) by (auto; apply Hc). rewrite <- E.
+    apply firstn_prefix_stable; [apply (tl_grows _ _ _ _ _ IE I H)|].
+    destruct Hc as [_ Ho]. destruct (own_len _ _ _ Ho). apply (firstn_eq_length mcommitIndex (tl g t)); auto. lia.
+  Qed.
+
+  (* the new log of a follower that accepts AppendEntries still holds everything it knew to be committed *)
+  Lemma accept_covers i mt prev prevT es mc j d :
+    s_m (srv s i) = Some (APQ mt prev prevT es mc j d) -> s_pc0 (srv s i) = true -> s_term (srv s i) <= mt ->
+    (prev = 0 \/ (0 < prev /\ term_at (s_log (srv s i)) prev = Some prevT)) ->
+    let L := firstn prev (s_log (srv s i)) ++ es in
+    mc <= List.length L ->
+    let n := cbound (srv s i) in
+    (n = 0 \/ exists t0 k0, cpt cfg g a t0 k0 /\ n <= k0 /\ t0 <= mt /\ firstn n L = firstn n (tl g t0) /\ n <= List.length L /\
+                            firstn n L = firstn n (s_log (srv s i))) /\
+    (mc = 0 \/ exists t1 k1, cpt cfg g a t1 k1 /\ mc <= k1 /\ t1 <= mt /\ firstn mc L = firstn mc (tl g t1)).
+  Proof.
+    intros Hm Hpc Hle Hok L Hmc n.
+    destruct (accept_len _ _ _ I _ _ _ _ _ _ _ _ Hm Hok) as (Ll & Lle & Lp). fold L in Ll, Lp.
+    destruct (Qm _ _ _ _ IA _ _ Hm) as [(_ & _ & _ & Htail) _]. rewrite <- Ll in Htail.
+    destruct (T3m _ _ _ I _ _ Hm) as (Hgl & _).
+    destruct (Fp _ _ _ _ IA i mt _ Hpc Hm) as [Hfp _]; [cbn; apply Nat.eqb_refl|]. cbn in Hfp. rewrite <- Ll in Hfp.
+    split.
+    - destruct (C1 _ _ _ _ IC i) as [E|(t0 & k0 & Hc & Hk & Ht & E & Hcl)]; [left; exact E|]. fold n in Hk, E, Hcl. right.
+      exists t0, k0. split; auto. split; auto. split; [lia|].
+      destruct (Nat.eq_dec t0 mt) as [->|Hne].
+      + assert (Hn : n <= List.length L). { assert (s_term (srv s i) = mt) by lia. specialize (Hcl (eq_sym H0)). lia. }
+        assert (E2 : firstn n L = firstn n (tl g mt)) by (apply is_prefix_firstn; auto).
+        repeat split; auto. now rewrite E2, E.
+      + destruct (snapshot_has_cpt _ _ _ _ t0 k0 mt L I IA IB Hc) as [HkL EL]; auto; [lia|].
+        assert (E2 : firstn n L = firstn n (tl g t0)).
+        { rewrite <- (firstn_firstn_le n k0 L) by lia. rewrite EL. apply firstn_firstn_le. lia. }
+        repeat split; auto; [lia|]. now rewrite E2, E.
+    - destruct (C2m _ _ _ _ IC _ _ Hm) as [E|(t1 & k1 & Hc & Hk & Ht & E)]; [left; exact E|]. right.
+      exists t1, k1. split; [exact Hc|]. split; [exact Hk|]. split; [exact Ht|].
+      rewrite <- E. apply is_prefix_firstn; auto.
+  Qed.
+
+  Lemma C1_step i : covered cfg g' a' (cbound (srv s' i)) (s_log (srv s' i)) (s_term (srv s' i)) i.
+  Proof.
+    pose proof (C1 _ _ _ _ IC i) as Hold. pose proof (term_monotone_step _ _ _ _ i H) as Hmono.
+    destruct (step_srv_cases _ _ _ _ H i) as [E|[(l & out & ltr & Hi & Hc)|(m & E)]].
+    - rewrite E. now apply covered_keep.
+    - destruct (core_cbound_cases _ _ _ _ _ _ _ _ Hc) as [(Ecb & _ & Hlog)|[(mt & prev & prevT & es & mc & j & d & Hm & Rf & Tm & Hok & El & Hpc & Hle & Hmc & Hcom & Hcb & Hsm & Hpc')|(Rl & El & Et & Hp3 & Hcom & Rl' & Hcase)]].
+      + (* nothing new is regarded as committed *)
+        rewrite Ecb. apply covered_keep.
+        destruct Hold as [->|(t & k & Hcpt & Hk & Ht & E & Hcl)]; [now left|]. right. exists t, k.
+        split; [exact Hcpt|]. split; [exact Hk|]. split; [lia|]. split.
+        * pose proof (covered_len _ _ _ _ _ _ _ (C1 _ _ _ _ IC i)) as Hn.
+          destruct Hlog as [->|[e ->]]; auto. rewrite <- E. apply firstn_prefix_stable; [apply is_prefix_app|exact Hn].
+        * intros Et. apply Hcl. lia.
+      + (* AppendEntries accepted *)
+        rewrite El in Hmc.
+        destruct (accept_covers i mt prev prevT es mc j d Hm Hpc Hle Hok Hmc) as [Hn Hm'].
+        destruct (accept_len _ _ _ I _ _ _ _ _ _ _ _ Hm Hok) as (Ll & _ & _).
+        assert (Hacc : List.length (firstn prev (s_log (srv s i)) ++ es) <= a' i mt).
+        { unfold a', observe_ack. rewrite (accepted_ge _ _ _ _ _ _ _ _ _ Hm Hpc Hpc' Tm Rf Hok El). lia. }
+        rewrite Hcb, El, Tm.
+        destruct (Nat.le_gt_cases mc (cbound (srv s i))) as [Hc1|Hc1].
+        * rewrite Nat.max_l by lia. destruct Hn as [->|(t0 & k0 & Hcpt & Hk & Ht & E & HnL & _)]; [now left|].
+          right. exists t0, k0. split; [now apply cpt_keep|]. split; [exact Hk|]. split; [exact Ht|]. split.
+          -- rewrite E. symmetry. apply (tl_firstn_keep t0 k0); auto. apply Hcpt.
+          -- intros ->. lia.
+        * rewrite Nat.max_r by lia. destruct Hm' as [->|(t1 & k1 & Hcpt & Hk & Ht & E)]; [now left|].
+          right. exists t1, k1. split; [now apply cpt_keep|]. split; [exact Hk|]. split; [exact Ht|]. split.
+          -- rewrite E. symmetry. apply (tl_firstn_keep t1 k1); auto. apply Hcpt.
+          -- intros ->. lia.
+      + (* the leader computes newCommitIndex *)
+        rewrite El, Et. destruct Hcase as [Ecb|(Ecb & Hnz & Hterm)].
+        * rewrite Ecb. now apply covered_keep.
+        * apply covered_keep. right. set (t := s_term (srv s i)) in *. set (ma := cbound (srv s' i)) in *.
+          rewrite Ecb in Hnz.
+          destruct (find_max_agree_spec cfg i (s_match (srv s i)) (List.length (s_log (srv s i))) Hnz) as [Hq Hma].
+          rewrite <- Ecb in Hq, Hma.
+          destruct (agree_set_props cfg i (s_match (srv s i)) ma Hi) as (N & Inc & Hmem).
+          pose proof (T0 _ _ _ I i Hi Rl) as Etl. fold t in Etl.
+          pose proof (A3 _ _ _ _ IA i Hi Rl) as Ha3. fold t in Ha3.
+          exists t, ma. split; [split|].
+          -- exists (agree_set cfg i (s_match (srv s i)) ma). repeat split; auto.
+             ++ unfold is_quorum in Hq. now apply Nat.ltb_lt in Hq.
+             ++ intros v Hv. destruct (Hmem v Hv) as [->|Hv']; [lia|].
+                pose proof (Mi _ _ _ _ IA i v Hi Rl). fold t in H0. lia.
+          -- unfold own. now rewrite <- Etl.
+          -- repeat split; auto; try lia. now rewrite Etl.
+    - rewrite E. unfold cbound. cbn. now apply covered_keep.
+  Qed.
+
+  Lemma C2n_step d m : In m (net s' d) -> apq_commit_ok cfg g' a' m.
+  Proof.
+    intros Hin. destruct (net_in_cases _ _ _ _ H _ _ Hin) as [Ho|[Hs|(c & cm & ->)]]; [| |exact Logic.I].
+    - apply apq_commit_keep. eapply C2n; eauto.
+    - apply apq_commit_keep. destruct Hs as (i & l & md & ltr & Hi & Hc & _). destruct m; try exact Logic.I.
+      destruct (core_apq_out _ _ _ _ _ _ _ _ _ _ _ _ _ _ _ _ Hc) as (Rl & -> & _ & _ & _ & _ & _ & _).
+      destruct (core_apq_dst _ _ _ _ _ _ _ _ _ _ _ _ _ _ _ _ Hc) as (_ & _ & -> & _).
+      unfold apq_commit_ok. pose proof (cbound_ge (srv s i)) as Hcb.
+      destruct (C1 _ _ _ _ IC i) as [E|(t & k & Hcpt & Hk & Ht & E & _)]; [left; lia|]. right.
+      exists t, k. split; [exact Hcpt|]. split; [lia|]. split; [exact Ht|].
+      rewrite <- (T0 _ _ _ I i Hi Rl).
+      rewrite <- (firstn_firstn_le (s_commit (srv s i)) (cbound (srv s i)) (s_log (srv s i))) by lia.
+      rewrite E. apply firstn_firstn_le. lia.
+  Qed.
+
+  Lemma C2m_step i m : s_m (srv s' i) = Some m -> apq_commit_ok cfg g' a' m.
+  Proof.
+    intros Hm. destruct (role_term_log_cases _ _ _ _ i H) as [(_ & _ & _ & _ & C)|[(m0 & _ & _ & _ & _ & C & Hin)|(l & out & ltr & Hi & Hc)]].
+    - rewrite C in Hm. apply apq_commit_keep. eapply C2m; eauto.
+    - rewrite C in Hm. injection Hm as <-. apply apq_commit_keep. eapply C2n; eauto.
+    - rewrite (core_m_stable _ _ _ _ _ _ _ _ Hc) in Hm. apply apq_commit_keep. eapply C2m; eauto.
+  Qed.
+
+  Lemma D1_step i : (s_sm (srv s' i), s_smdom (srv s' i)) = apply_all (firstn (s_commit (srv s' i)) (s_log (srv s' i))).
+  Proof.
+    pose proof (D1 _ _ _ _ IC i) as Hold.
+    pose proof (covered_len _ _ _ _ _ _ _ (C1 _ _ _ _ IC i)) as Hn. pose proof (cbound_ge (srv s i)) as Hcb.
+    destruct (step_srv_cases _ _ _ _ H i) as [E|[(l & out & ltr & Hi & Hc)|(m & E)]].
+    - now rewrite E.
+    - destruct (core_sm_cases _ _ _ _ _ _ _ _ Hc) as [(A & B & C & Hlog)|[(e & A & B & C & D)|(mt & prev & prevT & es & mc & j & d & Hm & Rf & Tm & Hok & El & Hpc & Hle & Hmc & Hcom & Hsm)]].
+      + rewrite A, B, C, Hold. f_equal. destruct Hlog as [->|[e ->]]; auto.
+        symmetry. apply firstn_prefix_stable; [apply is_prefix_app|lia].
+      + rewrite D, A, B, Hold. rewrite (firstn_succ_nth _ _ _ C), apply_all_app. reflexivity.
+      + rewrite El in Hmc.
+        destruct (accept_covers i mt prev prevT es mc j d Hm Hpc Hle Hok Hmc) as [Hcov _].
+        assert (Ec : firstn (s_commit (srv s i)) (firstn prev (s_log (srv s i)) ++ es) = firstn (s_commit (srv s i)) (s_log (srv s i))).
+        { destruct Hcov as [Z|(t0 & k0 & _ & _ & _ & _ & _ & E)].
+          - assert (s_commit (srv s i) = 0) by lia. rewrite H0. reflexivity.
+          - rewrite <- (firstn_firstn_le (s_commit (srv s i)) (cbound (srv s i))) by lia. rewrite E.
+            apply firstn_firstn_le. lia. }
+        rewrite Hsm, Hcom, El, Hold. unfold apply_log. rewrite <- Ec.
+        replace (s_commit (srv s i) + 1 - 1) with (s_commit (srv s i)) by lia.
+        destruct (Nat.le_gt_cases mc (s_commit (srv s i))) as [Hc1|Hc1].
+        * rewrite Nat.max_l by lia. replace (S mc - (s_commit (srv s i) + 1)) with 0 by lia. reflexivity.
+        * rewrite Nat.max_r by lia. replace (S mc - (s_commit (srv s i) + 1)) with (mc - s_commit (srv s i)) by lia.
+          rewrite <- apply_all_app, <- firstn_add_split. f_equal. f_equal. lia.
+    - rewrite E. cbn. exact Hold.
+  Qed.
+
+  Lemma cinv_step : cinv cfg s' g' a'.
+  Proof.
+    constructor; [apply C1_step | apply C2n_step | apply C2m_step | apply D1_step].
+  Qed.
+End CinvStep.
+
+Lemma cinv_init cfg : cinv cfg (init cfg) ghost0 (fun _ _ => 0).
+Proof.
+  constructor; cbn; try tauto; try discriminate; intros; try (now left); reflexivity.
+Qed.
+
+Lemma areach_cinv cfg s g a : cfg_fifo cfg = true -> areach cfg s g a -> cinv cfg s g a.
+Proof.
+  intros Hf. induction 1; [apply cinv_init|].
+  pose proof (areach_greach _ _ _ _ H) as Hg.
+  assert (Hg' : greach cfg s' (observe cfg g s')) by (econstructor; eauto).
+  apply (cinv_step cfg s g a ev s'); auto.
+  - eapply vreach_einv, greach_vreach; eauto.
+  - eapply greach_linv; eauto.
+  - eapply areach_ainv; eauto.
+  - eapply areach_binv; eauto.
+Qed.
+
+(* ---------- consequences ---------- *)
+Lemma cpt_agree cfg s g a t1 k1 t2 k2 x :
+  linv cfg s g -> binv cfg s g a -> cpt cfg g a t1 k1 -> cpt cfg g a t2 k2 -> x <= k1 -> x <= k2 ->
+  firstn x (tl g t1) = firstn x (tl g t2).
+Proof.
+  intros I IB [C1' O1] [C2' O2] H1 H2.
+  assert (Hgl : forall t k, own g t k -> gl g t <> 0).
+  { intros t k Ho Z. apply (T5 _ _ _ I) in Z. destruct (own_len _ _ _ Ho). rewrite Z in *. cbn in *. lia. }
+  destruct (Nat.lt_trichotomy t1 t2) as [Hlt|[->|Hlt]]; auto.
+  - destruct (hasp_dec (tl g t2) g t1 k1) as [Hy|Hn].
+    + unfold hasp in Hy. rewrite <- (firstn_firstn_le x k1 (tl g t1)) by lia. rewrite <- Hy. apply firstn_firstn_le. lia.
+    + exfalso. apply (chosen_no_bad _ _ _ _ _ _ IB C1' O1 t2). repeat split; eauto.
+  - destruct (hasp_dec (tl g t1) g t2 k2) as [Hy|Hn].
+    + unfold hasp in Hy. rewrite <- (firstn_firstn_le x k2 (tl g t2)) by lia. rewrite <- Hy. symmetry. apply firstn_firstn_le. lia.
+    + exfalso. apply (chosen_no_bad _ _ _ _ _ _ IB C2' O2 t1). repeat split; eauto.
+Qed.
+
+Lemma committed_prefix_agree cfg s g a i j c :
+  linv cfg s g -> binv cfg s g a -> cinv cfg s g a ->
+  c <= s_commit (srv s i) -> c <= s_commit (srv s j) ->
+  firstn c (s_log (srv s i)) = firstn c (s_log (srv s j)) /\ c <= List.length (s_log (srv s i)).
+Proof.
+  intros I IB IC Hi Hj.
+  pose proof (cbound_ge (srv s i)) as Bi. pose proof (cbound_ge (srv s j)) as Bj.
+  pose proof (covered_len _ _ _ _ _ _ _ (C1 _ _ _ _ IC i)) as Li.
+  split; [|lia].
+  destruct (Nat.eq_dec c 0) as [->|Hc]; [reflexivity|].
+  destruct (C1 _ _ _ _ IC i) as [Z|(ti & ki & Ci & Hki & _ & Ei & _)]; [lia|].
+  destruct (C1 _ _ _ _ IC j) as [Z|(tj & kj & Cj & Hkj & _ & Ej & _)]; [lia|].
+  rewrite <- (firstn_firstn_le c (cbound (srv s i)) (s_log (srv s i))) by lia.
+  rewrite <- (firstn_firstn_le c (cbound (srv s j)) (s_log (srv s j))) by lia.
+  rewrite Ei, Ej, !firstn_firstn_le by lia.
+  apply (cpt_agree cfg s g a ti ki tj kj c); auto; lia.
+Qed.
+
+(* StateMachineSafety == \A i, j \in ServerSet: \A k \in 1..Min({commitIndex[i], commitIndex[j]}): log[i][k] = log[j][k] *)
+Theorem state_machine_safety_lemma cfg s :
+  cfg_fifo cfg = true -> reachable cfg s ->
+  forall i j k, is_server cfg i = true -> is_server cfg j = true ->
+    1 <= k -> k <= Nat.min (s_commit (srv s i)) (s_commit (srv s j)) ->
+    log_at (s_log (srv s i)) k = log_at (s_log (srv s j)) k /\ log_at (s_log (srv s i)) k <> None.
+Proof.
+  intros Hf Hr i j k _ _ Hk1 Hk.
+  destruct (reachable_areach _ _ Hr) as (g & a & Ha). pose proof (areach_greach _ _ _ _ Ha) as Hg.
+  pose proof (greach_linv _ _ _ Hg) as I. pose proof (areach_binv _ _ _ _ Hf Ha) as IB. pose proof (areach_cinv _ _ _ _ Hf Ha) as IC.
+  destruct (committed_prefix_agree cfg s g a i j k I IB IC) as [E Hl]; try lia.
+  destruct k as [|k']; [lia|]. cbn [log_at]. split.
+  - rewrite <- (nth_error_firstn_lt (S k') (s_log (srv s i))) by lia.
+    rewrite <- (nth_error_firstn_lt (S k') (s_log (srv s j))) by lia. now rewrite E.
+  - intros Z. apply nth_error_None in Z. lia.
+Qed.
+
+(* ApplyLogOK == \A i, j \in ServerSet: commitIndex[i] = commitIndex[j] => sm[i] = sm[j] /\ smDomain[i] = smDomain[j] *)
+Theorem apply_log_ok_lemma cfg s :
+  cfg_fifo cfg = true -> reachable cfg s ->
+  forall i j, is_server cfg i = true -> is_server cfg j = true ->
+    s_commit (srv s i) = s_commit (srv s j) ->
+    s_sm (srv s i) = s_sm (srv s j) /\ s_smdom (srv s i) = s_smdom (srv s j).
+Proof.
+  intros Hf Hr i j _ _ Hc.
+  destruct (reachable_areach _ _ Hr) as (g & a & Ha). pose proof (areach_greach _ _ _ _ Ha) as Hg.
+  pose proof (greach_linv _ _ _ Hg) as I. pose proof (areach_binv _ _ _ _ Hf Ha) as IB. pose proof (areach_cinv _ _ _ _ Hf Ha) as IC.
+  destruct (committed_prefix_agree cfg s g a i j (s_commit (srv s i)) I IB IC) as [E _]; try lia.
+  pose proof (D1 _ _ _ _ IC i) as Di. pose proof (D1 _ _ _ _ IC j) as Dj.
+  rewrite <- Hc in Dj. rewrite <- E in Dj. rewrite <- Di in Dj. injection Dj as -> ->. auto.
+Qed.
+
+(* ---------- leader completeness along an execution ---------- *)
+Lemma areach_steps cfg s1 g1 a1 s2 :
+  cfg_fifo cfg = true -> areach cfg s1 g1 a1 -> steps cfg s1 s2 ->
+  exists g2 a2, areach cfg s2 g2 a2 /\ (forall t, is_prefix (tl g1 t) (tl g2 t)) /\
+                (forall t k, cpt cfg g1 a1 t k -> cpt cfg g2 a2 t k).
+Proof.
+  intros Hf Ha Hs. induction Hs as [|s1 s2 ev s3 Hs IH Hstep].
+  - exists g1, a1. split; [exact Ha|]. split; [intros t; apply is_prefix_refl | auto].
+  - destruct (IH Ha) as (g2 & a2 & Ha2 & Hp & Hc).
+    pose proof (areach_greach _ _ _ _ Ha2) as Hg2.
+    pose proof (vreach_einv _ _ _ (greach_vreach _ _ _ Hg2)) as IE. pose proof (greach_linv _ _ _ Hg2) as I.
+    exists (observe cfg g2 s3), (observe_ack cfg a2 s2 s3). split; [|split].
+    + econstructor; eauto.
+    + intros t. eapply is_prefix_trans; [apply Hp|]. apply (tl_grows _ _ _ _ _ IE I Hstep).
+    + intros t k Hcp. apply (cpt_keep cfg s2 g2 a2 ev s3 IE I Hstep). now apply Hc.
+Qed.
+
+(* An entry within the commit index of server i at a time when i's term is T is, at every later time, in the log of every
+   Leader whose term is >= T (at the same index). *)
+Theorem leader_completeness_lemma cfg s1 s2 :
+  cfg_fifo cfg = true -> reachable cfg s1 -> steps cfg s1 s2 ->
+  forall i j idx, is_server cfg i = true -> is_server cfg j = true ->
+    1 <= idx -> idx <= s_commit (srv s1 i) ->
+    s_role (srv s2 j) = Leader -> s_term (srv s1 i) <= s_term (srv s2 j) ->
+    log_at (s_log (srv s2 j)) idx = log_at (s_log (srv s1 i)) idx /\ log_at (s_log (srv s1 i)) idx <> None.
+Proof.
+  intros Hf Hr Hs i j idx _ Hj Hk1 Hk Hl Ht.
+  destruct (reachable_areach _ _ Hr) as (g1 & a1 & Ha1).
+  pose proof (areach_cinv _ _ _ _ Hf Ha1) as IC1.
+  destruct (areach_steps _ _ _ _ _ Hf Ha1 Hs) as (g2 & a2 & Ha2 & Hp & Hc).
+  pose proof (areach_greach _ _ _ _ Ha2) as Hg2. pose proof (greach_linv _ _ _ Hg2) as I2.
+  pose proof (areach_binv _ _ _ _ Hf Ha2) as IB2.
+  pose proof (cbound_ge (srv s1 i)) as Bi.
+  destruct (C1 _ _ _ _ IC1 i) as [Z|(t & k & Ci & Hki & Hti & Ei & _)]; [lia|].
+  pose proof (Hc _ _ Ci) as [Ch2 Ow2]. destruct Ci as [_ Ow1]. destruct (own_len _ _ _ Ow1) as [_ Hlen1].
+  set (n := cbound (srv s1 i)) in *. set (t2 := s_term (srv s2 j)) in *.
+  (* the leader's log at s2 agrees with tl g1 t on the first n entries *)
+  assert (E2 : firstn n (s_log (srv s2 j)) = firstn n (tl g1 t)).
+  { rewrite (T0 _ _ _ I2 j Hj Hl). fold t2.
+    assert (Eg : firstn n (tl g2 t) = firstn n (tl g1 t)) by (apply firstn_prefix_stable; [apply Hp|lia]).
+    destruct (Nat.eq_dec t2 t) as [->|Hne]; [exact Eg|]. rewrite <- Eg.
+    destruct (hasp_dec (tl g2 t2) g2 t k) as [Hy|Hn].
+    - unfold hasp in Hy. rewrite <- (firstn_firstn_le n k (tl g2 t2)) by lia. rewrite Hy. apply firstn_firstn_le. lia.
+    - exfalso. apply (chosen_no_bad _ _ _ _ _ _ IB2 Ch2 Ow2 t2). repeat split; auto; [lia|].
+      pose proof (G2 _ _ _ I2 j Hj Hl) as Eg2. fold t2 in Eg2. rewrite Eg2. apply (is_server_pos _ _ Hj). }
+  pose proof (covered_len _ _ _ _ _ _ _ (C1 _ _ _ _ IC1 i)) as Li. fold n in Li.
+  destruct idx as [|idx']; [lia|]. cbn [log_at]. split.
+  - rewrite <- (nth_error_firstn_lt n (s_log (srv s2 j))) by lia.
+    rewrite <- (nth_error_firstn_lt n (s_log (srv s1 i))) by lia. now rewrite E2, Ei.
+  - intros Z. apply nth_error_None in Z. lia.
+Qed.
+
+(* plogOK == \A i \in ServerSet: log[i] = plog[i]  (the persistent log mirrors the log; no assumption on the network) *)
+Lemma core_plog cfg i sv f l sv' out ltr :
+  server_core cfg i sv f l = HR sv' out ltr -> s_plog sv = s_log sv -> s_plog sv' = s_log sv'.
+Proof.
+  intros H E. destruct l; core_cases H; ut_cases; cbn in *; auto; try (now rewrite E).
+  all: bprop; subst; cbn in *; rewrite E; try reflexivity.
+  all: try (replace (List.length (s_log sv) - (List.length (s_log sv) - 0)) with 0 by lia; reflexivity).
+  all: f_equal; f_equal; try lia.
+  all: match goal with Ht : match term_at ?l ?k with _ => _ end = true |- _ =>
+         destruct (term_at l k) eqn:Et; try discriminate; apply term_at_nth in Et as (e & _ & Hn & _); apply nth_error_lt in Hn; lia end.
+Qed.
+
+Theorem plog_eq_log_lemma cfg s : reachable cfg s -> forall i, s_plog (srv s i) = s_log (srv s i).
+Proof.
+  induction 1 as [|s ev s' Hr IH Hs]; intros i; [reflexivity|].
+  destruct (step_srv_cases _ _ _ _ Hs i) as [E|[(l & out & ltr & _ & Hc)|(m & E)]].
+  - rewrite E. apply IH.
+  - eapply core_plog; eauto.
+  - rewrite E. cbn. apply IH.
 Qed.
